@@ -165,6 +165,20 @@ func c13Generate(c *mon.Ctx) {
 		}
 	}
 
+	// every Montgomery-structured value loaded through each of the library's own loaders (Decode, UnmarshalBinary, DecodeHex,
+	// Set), compared with the same value written as limbs: a loader that leaves a thin set of values unreduced gives itself
+	// away in Equal / IsZero / LessOrEqual, not in the encoding
+	for i, v := range gen.MontStructured(n) {
+		for j, via := range []string{"decode", "unmarshal", "decodehex", "set"} {
+			if (i+j)%2 == 1 && via != "decode" {
+				continue
+			}
+
+			mv := mon.ScalarMove{Via: via, From: hx(gen.Draw(mr, n).X), To: hx(v.X), Aux: "1"}
+			c.Structured(func() any { return &c13Case{Op: "cmp", S: mv.To, T: mv.To, Class: "history", Move: &mv} })
+		}
+	}
+
 	for rep := 0; rep < 12; rep++ {
 		for _, via := range mon.ScalarVias {
 			mv := mon.PlanScalarMove(via, mr)
